@@ -46,4 +46,29 @@ PROPS = {
         "assumptions": ["names containing ',' or leading/trailing blanks in a depends-on annotation are outside the property's alphabet: recorded (tags dep:not-wf), not alarmed"],
         "trusted_base": ["model: lean/CliUtils/Model/IdStr.lean"],
     },
+    "C06": {
+        "domains": ["wait"],
+        "level_text": ("Machine-checked Lean 4 theorems about the wait-task state machine for ALL finite interleaved sequences of status updates "
+                       "(any status, generation, UID, missing resource), deadline and cancellation: a Successful event is emitted only on an "
+                       "observation that satisfies the phase condition (Current, generation >= applied, UID unchanged / NotFound or replaced UID); "
+                       "at most one event per update; Skipped exactly for failed/skipped actuation; the phase ends early only after a moment with "
+                       "nothing pending; failed-then-current and regress clauses; Timeout for exactly the pending objects; recorded reconcile "
+                       "state = last event (invariant by induction over the operation list). The model (start/statusUpdate/timeout/cancel) is tied "
+                       "to the real WaitTask by driving it through Start/StatusUpdate/Cancel with the same sequences (exhaustive short, random long)."),
+        "level_note": ("Trusted: Lean kernel (+propext, Quot.sound, Classical.choice), hand-written model, harness, driver. Each entry point of the "
+                       "WaitTask is atomic in the model (the code holds its mutex); the deadline goroutine is invoked through an overlay-exported "
+                       "sendTimeoutEvents; Go's context/timer machinery and the memory model are not modelled."),
+        "technique": "Lean 4 proof (invariants by induction over update sequences) + differential correspondence against the real WaitTask",
+        "rule": ("wait: for both conditions, one object with every sequence of <= 3 (quick) / <= 4 (thorough) observations from a 14-value grid "
+                 "(5 statuses x stale/same generation x same/changed UID, missing resource), every pair (initial cache, first update), plus random "
+                 "phases of 1-3 objects (records: none / failed / skipped / other strategy / applied) with <= 8 interleaved updates, foreign ids, "
+                 "deadline or cancel, updates after the end. non-trivial: at least one operation; distinct = distinct canonical input JSON."),
+        "explanation": ("Spec predicate on the implementation's events (independent re-play of the observation feed): one start event per object, "
+                        "Skipped iff actuation failed/skipped, Successful only if the latest observation meets the condition, <= 1 event per update, "
+                        "failed->met => Successful, met->regress => Pending, deadline => Timeout for exactly the pending ones, ended iff a "
+                        "none-pending moment or explicit end, recorded state = last event."),
+        "assumptions": ["histories in which an object gets its ORIGINAL uid back after having been observed with another one cannot occur in a cluster; "
+                        "the code's behaviour on them is compared with the model but the two 'is reported again' clauses are not judged there"],
+        "trusted_base": ["model: lean/CliUtils/Model/Wait.lean; overlay export harness/overlay/taskrunner_export.go"],
+    },
 }
